@@ -6,9 +6,11 @@ import (
 	"crypto/sha1"
 	"encoding/hex"
 	"fmt"
+	"io"
 	"regexp"
 	"sort"
 	"strings"
+	"syscall"
 
 	"wa-lang.org/wa/internal/zzverif/v8x"
 	wg "wa-lang.org/wa/internal/zzverif/watgen"
@@ -280,6 +282,7 @@ type shardStats struct {
 	KeptUnreachable int `json:"kept_unreachable"` // unreachable functions the stripper kept (a note, not a violation)
 	StartCases      int `json:"start_cases"`
 	Identical       int `json:"identical_binaries"` // stripped binary byte-identical to the original (nothing to compare)
+	CPUms           int `json:"cpu_ms"`             // CPU time of the worker process spent on the shard (node not included)
 }
 
 func (a *shardStats) add(b shardStats) {
@@ -291,6 +294,7 @@ func (a *shardStats) add(b shardStats) {
 	a.KeptUnreachable += b.KeptUnreachable
 	a.StartCases += b.StartCases
 	a.Identical += b.Identical
+	a.CPUms += b.CPUms
 }
 
 type shardResult struct {
@@ -303,16 +307,17 @@ type shardResult struct {
 }
 
 type prepared struct {
-	spec     *Spec
-	order    int64
-	built    *Built
-	text     string
-	stripped string
-	origWasm []byte
-	strWasm  []byte
-	dead     bool // an early oracle already failed; no execution
-	reach    *Reach
-	removed  []string
+	spec      *Spec
+	order     int64
+	built     *Built
+	text      string
+	stripped  string
+	origWasm  []byte
+	strWasm   []byte
+	dead      bool // an early oracle already failed, or nothing to execute
+	explained bool // a reachable function was removed: later differences are its consequences
+	reach     *Reach
+	removed   []string
 }
 
 type shardCtx struct {
@@ -362,9 +367,36 @@ func nameToFunc(id string) int {
 	return -1
 }
 
+// coarseMask: cases that reference functions by index (numeric references, anonymous functions)
+// are keyed coarsely - oracle plus these surface attributes only. Once references are numeric,
+// any removal renumbers what they point at, so one defect shows in every oracle and every root
+// and placement combination; the fine classes below would only multiply it.
+const coarseMask = aNumeric | aAnon
+
+// file records a candidate. culprit >= 0: the function to blame (its root kinds or call-site
+// placement make the class); culprit < 0: the whole case.
+func (c *shardCtx) file(p *prepared, oracle, detail string, culprit int, what string, extra map[string]interface{}) {
+	s := p.spec
+	surface := surfaceAttrs(s)
+	if surface&coarseMask != 0 {
+		c.cand(oracle, surface&(coarseMask|aInline), p.order, what, replayOf(p, extra))
+		return
+	}
+	base := oracle
+	if detail != "" {
+		base += "|" + detail
+	}
+	if culprit >= 0 {
+		c.cand(base+"|callee="+calleeKind(culprit), culpritAttrs(s, culprit), p.order, what, replayOf(p, extra))
+		return
+	}
+	c.cand(base, caseAttrs(s), p.order, what, replayOf(p, extra))
+}
+
 // evalShard runs all oracles on the specs. order0 is the global position of the first spec.
 func evalShard(specs []Spec, order0 int64, wz *wzEngine, v8 *v8x.V8) shardResult {
 	c := &shardCtx{cands: map[string]*Cand{}, dist: map[string]struct{}{}}
+	cpu0 := cpuMillis()
 	preps := make([]*prepared, 0, len(specs))
 	var jobs []v8x.Job
 	type jobRef struct{ prep, which int }
@@ -387,7 +419,6 @@ func evalShard(specs []Spec, order0 int64, wz *wzEngine, v8 *v8x.V8) shardResult
 		}
 		p.text = rd.Text
 		p.reach = Reachability(p.built.Mod)
-		surface := surfaceAttrs(s)
 
 		// the original must be in the subset: it assembles
 		ow, err, pn := assemble(p.text)
@@ -397,8 +428,8 @@ func evalShard(specs []Spec, order0 int64, wz *wzEngine, v8 *v8x.V8) shardResult
 			if msg == "" {
 				msg = err.Error()
 			}
-			c.cand("subset|the generated original module is rejected by the assembler|"+errClass(msg), caseAttrs(s), p.order,
-				"a module of the frozen graph family does not assemble: "+clip(msg, 300), replayOf(p, nil))
+			c.file(p, "subset|the generated original module is rejected by the assembler", errClass(msg), -1,
+				"a module of the frozen graph family does not assemble: "+clip(msg, 300), nil)
 			p.dead = true
 			continue
 		}
@@ -408,15 +439,17 @@ func evalShard(specs []Spec, order0 int64, wz *wzEngine, v8 *v8x.V8) shardResult
 		st, err, pn := strip(p.text)
 		c.res.Stats.Evals++
 		if pn != "" {
-			c.cand("strip|panic|"+errClass(pn), caseAttrs(s), p.order,
-				"WatStrip panics on a module of the subset: "+clip(pn, 300), replayOf(p, map[string]interface{}{"observed": pn, "expected": "stripped text"}))
+			c.file(p, "strip|panic", errClass(pn), -1, "WatStrip panics on a module of the subset: "+clip(pn, 300),
+				map[string]interface{}{"observed": "panic: " + pn, "expected": "stripped text"})
 			p.dead = true
+			c.distinct("strip-panic|" + errClass(pn))
 			continue
 		}
 		if err != nil {
-			c.cand("strip|error|"+errClass(err.Error()), caseAttrs(s), p.order,
-				"WatStrip rejects a module of the subset: "+clip(err.Error(), 300), replayOf(p, map[string]interface{}{"observed": err.Error(), "expected": "stripped text"}))
+			c.file(p, "strip|error", errClass(err.Error()), -1, "WatStrip rejects a module of the subset: "+clip(err.Error(), 300),
+				map[string]interface{}{"observed": err.Error(), "expected": "stripped text"})
 			p.dead = true
+			c.distinct("strip-error|" + errClass(err.Error()))
 			continue
 		}
 		p.stripped = string(st)
@@ -451,14 +484,9 @@ func evalShard(specs []Spec, order0 int64, wz *wzEngine, v8 *v8x.V8) shardResult
 				wantAnon++ // every anonymous function of the family is exported, hence reachable
 			}
 		}
-		if anon < wantAnon {
-			p.removed = append(p.removed, "<anonymous>")
-			c.cand("removed-reachable|callee=defined", surface|aExport, p.order,
-				"an anonymous exported function was removed", replayOf(p, map[string]interface{}{"observed": fmt.Sprintf("%d anonymous functions left", anon), "expected": wantAnon}))
-		}
-		if len(p.removed) > 0 {
+		if len(p.removed) > 0 || anon < wantAnon {
 			c.res.Stats.RemovedSome++
-			c.res.Stats.RemovedFuncs += len(p.removed)
+			c.res.Stats.RemovedFuncs += len(p.removed) + wantAnon - anon
 		}
 		if nKeptUnreach > 0 {
 			c.res.Stats.KeptUnreachable += nKeptUnreach
@@ -466,13 +494,44 @@ func evalShard(specs []Spec, order0 int64, wz *wzEngine, v8 *v8x.V8) shardResult
 				c.res.KeptNote = fmt.Sprintf("fam %s n=%d k=%d edges=%d roots=%v start=%d: %d unreachable function(s) kept", s.Fam, s.N, s.K, s.Edges, s.Roots, s.Start, nKeptUnreach)
 			}
 		}
-		// culprits: removed reachable functions that are roots or have a kept caller
-		culprits := map[int]bool{}
+
+		// oracle 1a: the stripped text assembles
+		sw, err, pn := assemble(p.stripped)
+		c.res.Stats.Evals++
+		asmMsg, asmHow := "", ""
+		if pn != "" || err != nil {
+			asmMsg, asmHow = pn, "panic"
+			if asmMsg == "" {
+				asmMsg, asmHow = err.Error(), "error"
+			}
+		}
+		consequence := ""
+		if asmMsg != "" {
+			consequence = "; the stripped text no longer assembles (" + asmHow + ": " + clip(asmMsg, 200) + ")"
+		}
+
+		// culprits: removed reachable functions that are roots or have a kept caller. What follows
+		// from a culprit (assembly failure, different behaviour) is reported with it, not again.
+		explained := false
+		extra := map[string]interface{}{
+			"observed": "removed: " + strings.Join(p.removed, " ") + consequence,
+			"expected": "only functions unreachable from exports, start and elem are removed; reachable: " + reachList(p.reach),
+		}
+		if anon < wantAnon {
+			p.removed = append(p.removed, "<anonymous>")
+			explained = true
+			c.file(p, "removed-reachable", "", -1, "an anonymous exported function was removed"+consequence, extra)
+		}
 		for _, id := range removedReachable {
 			f := nameToFunc(id)
 			if f < 0 {
-				c.cand("removed-reachable|callee=defined|support function "+id, caseAttrs(s), p.order,
-					"exported support function "+id+" was removed", replayOf(p, nil))
+				// exported support function (get, reset, tramp ...): a root of kind export
+				explained = true
+				if surfaceAttrs(s)&coarseMask != 0 {
+					c.file(p, "removed-reachable", "", -1, "exported function $"+id+" was removed"+consequence, extra)
+				} else {
+					c.cand("removed-reachable|callee=defined", surfaceAttrs(s)|aExport, p.order, "exported function $"+id+" was removed"+consequence, replayOf(p, extra))
+				}
 				continue
 			}
 			front := rootAttrs(s, f) != 0
@@ -482,53 +541,35 @@ func evalShard(specs []Spec, order0 int64, wz *wzEngine, v8 *v8x.V8) shardResult
 				}
 			}
 			if front {
-				culprits[f] = true
-				c.cand("removed-reachable|callee="+calleeKind(f), culpritAttrs(s, f), p.order,
-					fmt.Sprintf("function $%s is reachable (%s) but was removed", id, whyReachable(p, f)),
-					replayOf(p, map[string]interface{}{"observed": "removed: " + strings.Join(p.removed, " "), "expected": "only functions unreachable from exports, start and elem are removed; reachable: " + reachList(p.reach)}))
+				explained = true
+				c.file(p, "removed-reachable", "", f, fmt.Sprintf("function $%s is reachable (%s) but was removed%s", id, whyReachable(p, f), consequence), extra)
 			}
 		}
-
-		// oracle 1a: the stripped text assembles
-		sw, err, pn := assemble(p.stripped)
-		c.res.Stats.Evals++
-		if pn != "" || err != nil {
-			msg, how := pn, "panic"
-			if msg == "" {
-				msg, how = err.Error(), "error"
+		if asmMsg != "" {
+			if !explained {
+				c.file(p, "strip-assemble|"+asmHow, errClass(asmMsg), -1, "the stripped text no longer assembles: "+clip(asmMsg, 300),
+					map[string]interface{}{"observed": asmHow + ": " + asmMsg, "expected": "a module that assembles and validates"})
 			}
-			attrs := uint32(0)
-			callee := "n.a."
-			if len(culprits) > 0 {
-				var fsorted []int
-				for f := range culprits {
-					fsorted = append(fsorted, f)
-				}
-				sort.Ints(fsorted)
-				callee = calleeKind(fsorted[0])
-				attrs = culpritAttrs(s, fsorted[0])
-			} else {
-				attrs = caseAttrs(s)
-			}
-			c.cand("strip-assemble|"+how+"|"+errClass(msg)+"|callee="+callee, attrs, p.order,
-				"the stripped text no longer assembles: "+clip(msg, 300),
-				replayOf(p, map[string]interface{}{"observed": how + ": " + msg, "expected": "a module that assembles and validates"}))
 			p.dead = true
-			c.distinct(fmt.Sprintf("noasm|%s|%v", errClass(msg), p.removed))
+			c.distinct(fmt.Sprintf("noasm|%s|%v", errClass(asmMsg), p.removed))
 			continue
 		}
 		p.strWasm = sw
+		p.explained = explained
 
-		refs = append(refs, jobRef{len(preps) - 1, 0})
-		jobs = append(jobs, v8Job(p.origWasm, p.built.Calls, sigsOf(p.built.Mod)))
 		if string(p.strWasm) == string(p.origWasm) {
+			// byte-identical binaries behave identically: nothing to run
 			c.res.Stats.Identical++
-		} else {
-			refs = append(refs, jobRef{len(preps) - 1, 1})
-			jobs = append(jobs, v8Job(p.strWasm, p.built.Calls, sigsOf(p.built.Mod)))
+			c.distinct("identical|" + reachList(p.reach))
+			p.dead = true
+			continue
 		}
+		sigs := sigsOf(p.built.Mod)
+		refs = append(refs, jobRef{len(preps) - 1, 0}, jobRef{len(preps) - 1, 1})
+		jobs = append(jobs, v8Job(p.origWasm, p.built.Calls, sigs), v8Job(p.strWasm, p.built.Calls, sigs))
 	}
 
+	cpuA := cpuMillis()
 	// V8 in the background, the embedded engine meanwhile
 	type v8Answer struct {
 		res []v8x.Result
@@ -549,23 +590,22 @@ func evalShard(specs []Spec, order0 int64, wz *wzEngine, v8 *v8x.V8) shardResult
 		ch <- v8Answer{all, nil}
 	}()
 
+	type beh struct {
+		step   int
+		detail string
+	}
 	wzOrig := map[int]*Obs{}
+	wzDiff := map[int]beh{}
 	for pi, p := range preps {
 		if p.dead {
 			continue
 		}
 		o1 := wz.run(p.origWasm, p.built.Calls)
-		c.res.Stats.EngineRuns++
+		o2 := wz.run(p.strWasm, p.built.Calls)
+		c.res.Stats.EngineRuns += 2
 		wzOrig[pi] = &o1
-		if o1.Inst != "ok" && !strings.HasPrefix(o1.Inst, "inst-error:") {
-			c.res.Harness = "wazero: " + o1.Inst
-		}
-		if string(p.strWasm) != string(p.origWasm) {
-			o2 := wz.run(p.strWasm, p.built.Calls)
-			c.res.Stats.EngineRuns++
-			if k, d := diffObs(&o1, &o2); k != -2 {
-				c.behaviour(p, "wazero", k, d)
-			}
+		if k, d := diffObs(&o1, &o2); k != -2 {
+			wzDiff[pi] = beh{k, d}
 		}
 		c.distinct(fmt.Sprintf("%s|%v|%v|%v", o1.Inst, o1.Start, o1.Steps, p.removed))
 		if len(c.res.Samples) < 2 {
@@ -576,7 +616,11 @@ func evalShard(specs []Spec, order0 int64, wz *wzEngine, v8 *v8x.V8) shardResult
 		}
 	}
 
+	cpuB := cpuMillis()
 	ans := <-ch
+	if benchOut != nil {
+		fmt.Fprintf(benchOut, "cases=%d prepare=%dms wazero=%dms v8jobs=%d\n", len(specs), cpuA-cpu0, cpuB-cpuA, len(jobs))
+	}
 	if ans.err != nil {
 		c.res.Harness = "v8: " + ans.err.Error()
 	} else {
@@ -591,43 +635,49 @@ func evalShard(specs []Spec, order0 int64, wz *wzEngine, v8 *v8x.V8) shardResult
 			if !ok || p.dead {
 				continue
 			}
-			c.res.Stats.EngineRuns++
-			r1 := pair[0]
+			c.res.Stats.EngineRuns += 2
+			r1, r2 := pair[0], pair[1]
 			if !r1.Valid {
-				c.cand("subset|the generated original module does not validate in V8|"+errClass(r1.Error), caseAttrs(p.spec), p.order,
-					"V8 rejects the assembled original: "+clip(r1.Error, 300), replayOf(p, nil))
+				c.file(p, "subset|the generated original module does not validate in V8", errClass(r1.Error), -1,
+					"V8 rejects the assembled original: "+clip(r1.Error, 300), nil)
 				continue
 			}
 			o1 := v8Obs(r1)
 			if w := wzOrig[pi]; w != nil {
 				// harness self-check: both engines agree on the original (values and traps)
-				if k, d := diffObs(w, &o1); k != -2 && !(k == -1 && w.Inst != "ok" && o1.Inst != "ok") {
+				if k, d := diffObs(w, &o1); k != -2 && !(k == -1 && w.Inst != "ok" && o1.Inst != "ok") && !(k >= 0 && strings.Contains(w.Raw[k], "directly calling host function")) {
 					c.res.Harness = fmt.Sprintf("engines disagree on an ORIGINAL module (not a C06 matter; harness assumption broken) spec=%+v step %d: %s", *p.spec, k, d)
 				}
 			}
-			r2 := pair[1]
-			if r2 == nil {
+			if !r2.Valid {
+				if !p.explained {
+					c.file(p, "strip-validate", errClass(r2.Error), -1, "the stripped module assembles but V8 rejects it: "+clip(r2.Error, 300),
+						map[string]interface{}{"observed": r2.Error, "expected": "valid module"})
+				}
 				continue
 			}
-			c.res.Stats.EngineRuns++
-			if !r2.Valid {
-				c.cand("strip-validate|"+errClass(r2.Error), caseAttrs(p.spec), p.order,
-					"the stripped module assembles but V8 rejects it: "+clip(r2.Error, 300),
-					replayOf(p, map[string]interface{}{"observed": r2.Error, "expected": "valid module"}))
-				continue
+			if p.explained {
+				continue // consequences of a removal already reported
 			}
 			o2 := v8Obs(r2)
-			if k, d := diffObs(&o1, &o2); k != -2 {
-				c.behaviour(p, "v8", k, d)
+			vk, vd := diffObs(&o1, &o2)
+			wd, wok := wzDiff[pi]
+			switch {
+			case vk != -2 && wok:
+				c.behaviour(p, "wazero and V8", vk, "V8: "+vd+"; wazero: "+wd.detail)
+			case vk != -2:
+				c.behaviour(p, "V8 only", vk, vd)
+			case wok:
+				c.behaviour(p, "wazero only", wd.step, wd.detail)
 			}
 			// oracle 4: export list (names, kinds, order) and imports
 			if d := externDiff(r1.Exports, r2.Exports); d != "" {
-				c.cand("exports|"+d, caseAttrs(p.spec), p.order, "the export list changed: "+fmt.Sprint(r1.Exports)+" -> "+fmt.Sprint(r2.Exports),
-					replayOf(p, map[string]interface{}{"observed": r2.Exports, "expected": r1.Exports}))
+				c.file(p, "exports", d, -1, "the export list changed: "+fmt.Sprint(r1.Exports)+" -> "+fmt.Sprint(r2.Exports),
+					map[string]interface{}{"observed": r2.Exports, "expected": r1.Exports})
 			}
 			if d := importDiff(r1.Imports, r2.Imports); d != "" {
-				c.cand("imports|"+d, caseAttrs(p.spec), p.order, "the stripped module imports something the original did not: "+fmt.Sprint(r2.Imports),
-					replayOf(p, map[string]interface{}{"observed": r2.Imports, "expected": r1.Imports}))
+				c.file(p, "imports", d, -1, "the stripped module imports something the original did not: "+fmt.Sprint(r2.Imports),
+					map[string]interface{}{"observed": r2.Imports, "expected": r1.Imports})
 			}
 		}
 	}
@@ -640,6 +690,7 @@ func evalShard(specs []Spec, order0 int64, wz *wzEngine, v8 *v8x.V8) shardResult
 		c.res.Distinct = append(c.res.Distinct, d)
 	}
 	sort.Strings(c.res.Distinct)
+	c.res.Stats.CPUms = cpuMillis() - cpu0
 	return c.res
 }
 
@@ -685,17 +736,21 @@ func whyReachable(p *prepared, f int) string {
 	return strings.Join(why, ", ")
 }
 
-// behaviour files a behaviour difference between original and stripped on one engine.
-func (c *shardCtx) behaviour(p *prepared, engine string, step int, detail string) {
+// behaviour files a behaviour difference between original and stripped.
+func (c *shardCtx) behaviour(p *prepared, engines string, step int, detail string) {
 	class := "instantiate/start"
 	name := "(instantiation)"
 	if step >= 0 && step < len(p.built.Calls) {
 		class = p.built.Calls[step].Class
 		name = stepNames(p.built.Calls[step : step+1])[0]
 	}
-	c.cand("behaviour|"+engine+"|"+class, caseAttrs(p.spec), p.order,
-		fmt.Sprintf("%s: call %s differs between original and stripped module: %s", engine, name, clip(detail, 400)),
-		replayOf(p, map[string]interface{}{"engine": engine, "step": step, "call": name, "observed": detail, "expected": "identical results, traps and host-call traces", "calls": stepNames(p.built.Calls)}))
+	oracle := "behaviour"
+	if engines != "wazero and V8" {
+		oracle = "behaviour(" + engines + ")"
+	}
+	c.file(p, oracle, class, -1,
+		fmt.Sprintf("%s: call %s differs between original and stripped module: %s", engines, name, clip(detail, 500)),
+		map[string]interface{}{"engines": engines, "step": step, "call": name, "observed": detail, "expected": "identical results, traps and host-call traces", "calls": stepNames(p.built.Calls)})
 }
 
 func externDiff(a, b []v8x.Extern) string {
